@@ -139,6 +139,12 @@ def check(ctx):
                 rest_ = [i_ for i_ in np.random.default_rng(ctx.seed + 13).permutation(len(rots_)) if i_ != f_]
                 inf_ = [f_] + [int(i_) for i_ in rest_]
                 listings.append(("explicit-identity-not-first", {"rotations": rots_[inf_], "translations": trans_[inf_]}, None))
+            # the whole group as floating-point matrices that went through the Cartesian frame and back (integer up to rounding)
+            if order <= 3:
+                LT_ = L.T
+                rrt_ = np.array([(np.eye(3) if (r_ == np.eye(3, dtype=int)).all() else np.linalg.inv(LT_) @ (LT_ @ r_ @ np.linalg.inv(LT_)) @ LT_) for r_ in rots_])   # pure translations keep the exact identity
+                if np.abs(rrt_ - rots_).max() > 0:
+                    listings.append(("explicit-float-roundtrip", {"rotations": rrt_, "translations": trans_.copy()}, None))
             # a proper subgroup handed over by the caller (proper rotations only, or the pure translations only): the admissible
             # space is the one of THAT group, which is larger
             subgroup_idx = {}
